@@ -87,6 +87,15 @@ def liveness_refresh(W, ob):
                 ('on_sync_request', 'on_sync_reply', 'on_input', 'on_input_ack', 'on_quality_report', 'on_quality_reply', 'on_checksum_report'))]
     ob.require_count(len(handlers), 7, 'handler dispatch sites')
     sb = [w['bb'] for w in st]
+    # ... and ONLY accepted messages: a packet that is then discarded (foreign magic, shutdown) is not a sign of life of the peer
+    from . import c08 as _c08
+    Gf = W.guards(f)
+    for w in st:
+        g = Gf.guard(w['bb'])
+        okf = bool(g) and guard_has_is(g, 'self.state', 'Shutdown', False) and all(_c08.magic_ok(c) for c in g)
+        ob.check(okf, 'handle_message|refresh-only-accepted', 'only packets that passed the Shutdown and magic filters refresh last_recv_time',
+                 'last_recv_time is refreshed by packets that are then discarded (guard: %s): traffic from a restarted or foreign sender on the peer\'s address keeps a dead peer alive' % dnf_str(g)[:200],
+                 where(f, w['line']))
     # the dispatch point: the nearest block that dominates every handler call (the `match` on the body); the KeepAlive arm leaves from it too
     doms = None
     for t in handlers:
@@ -237,6 +246,8 @@ from . import initial
 
 from . import mustcall
 
+from . import vocab
+
 OBLIGATIONS = [
     ('C07.O1', 'timeout guards', 'NetworkInterrupted under last_recv_time + disconnect_notify_start < now, Disconnected under '
      'last_recv_time + disconnect_timeout < now, both while Running; last_recv_time written only by handle_message.', o1),
@@ -253,4 +264,5 @@ OBLIGATIONS = [
     ('C07.W', 'configuration wiring', 'at every call site that passes a field read `x.B` for a parameter `A` the callee has no same-typed parameter `B`; in every struct literal no parameter `B` is stored in field `A` while a same-typed parameter `A` / field `B` exists (builder -> constructor -> endpoint fields: timeouts, window, fps are not crossed); see rules/wiring.py', wiring.rule),
     ('C07.I', 'initial state', 'every constructor gives the fields this property\'s rules interpret (NULL_FRAME = none / nothing yet, 0 = first frame, latches open, typestate start) the value listed in tables/initial_state.json; every field compared with NULL_FRAME anywhere is listed; see rules/initial.py', initial.rule_for('C07')),
     ('C07.M', 'must-call floor', 'the calls listed for this property in tables/must_call.json are made on every path from the entry of their function to a normal return (interprocedural must-call): a new early return, fast path or extra condition in front of one of them is reported; see rules/mustcall.py', mustcall.rule_for('C07')),
+    ('C07.V', 'no unreviewed condition in the pinned helpers', 'for each helper whose body this property\'s rules pin (tables/condition_terms.json), the terms its path conditions are built from (fields, parameters, call results -- no constants, operators or local names) are a subset of the reviewed vocabulary: one more `if` in front of a pinned result (a lock that may time out, "only while an endpoint is running") is reported; see rules/vocab.py', vocab.rule_for('C07')),
 ]
